@@ -129,6 +129,13 @@ def oracle_c16(sc, g):
         if o["long"]: counts[qlong(o)] = counts.get(qlong(o), 0) + 1
     if sc["cfg"]["opts"]["help"]:
         counts[b"help"] = counts.get(b"help", 0) + 1      # the built-in help option is listed too
+    tags = {}
+    def walk_tags(fs):
+        for f in fs:
+            if "struct" in f: walk_tags(f["struct"]["fields"])
+            else: tags[f["fid"]] = f["tag"]
+    for fl in scen.all_field_lists(sc): walk_tags(fl)
+    alltext = b"\x00".join(tags.values())
     for op, r in zip(sc["ops"], g["ops"]):
         if op["op"] not in ("help", "man") or r.get("panic"):
             continue
@@ -149,13 +156,38 @@ def oracle_c16(sc, g):
             name = re.escape(qlong(o))
             if op["op"] == "help":
                 # an option row: indentation, optional short name, the long name (values such as choices may look like options)
-                pat = rb"(?m)^ +(?:-[^\s,]+, )?--" + name + rb"(?![A-Za-z0-9_.:\-\x80-\xff])"
+                # (option rows start at column 2, 6 or 10; continuation lines of wrapped descriptions start at the description column)
+                pat = rb"(?m)^(?: {2}| {6}| {10})(?:-[^\s,]+, )?--" + name + rb"(?![A-Za-z0-9_.:\-\x80-\xff])"
             else:
                 pat = rb"\\fB--" + name + rb"\\fR"
             present = re.search(pat, text) is not None
             if shown != present:
                 return "%s: option --%s is %s but %s in the %s" % (op["op"], qlong(o).decode("utf-8", "replace"), "visible" if shown else "hidden or out of scope",
                                                                   "listed" if present else "not listed", "help text" if op["op"] == "help" else "man page")
+        # a masked default's real value never appears (judged for default texts that occur nowhere else in the declaration)
+        for o, path, nd, hidden_above in allopts:
+            tag = tags.get(o["fid"], b"")
+            if b'default-mask:"' not in tag:
+                continue
+            for dflt in o.get("defaults", []):
+                if len(dflt) < 5 or alltext.count(dflt) != 1 or not all(32 < c < 127 and c not in b'\\"-' for c in dflt):
+                    continue
+                if not re.search(rb"[A-Za-z]{3}", dflt):
+                    continue        # numbers may legitimately appear as the (unmasked) initial value of another option
+                if dflt in text:
+                    return "%s: the masked default %r of --%s appears in the output" % (op["op"], dflt, (o["long"] or b"?").decode("utf-8", "replace"))
+        # the sub-commands listed for the innermost active command are exactly its visible ones
+        if op["op"] == "help":
+            node = sc["meta"]
+            try:
+                for i in active: node = node["subs"][i]
+            except IndexError:
+                continue
+            m = re.search(rb"(?m)^Available commands:\n((?:  .*\n?)*)", text)
+            listed = sorted(re.findall(rb"(?m)^  (\S+)", m.group(1))) if m else []
+            visible_cmds = sorted(s2["name"] for s2 in node["subs"] if not s2.get("hidden"))
+            if all(b" " not in n and n for n in visible_cmds) and len(set(visible_cmds)) == len(visible_cmds) and listed != visible_cmds:
+                return "help: the listed sub-commands %r are not the visible sub-commands %r of the active command" % (listed, visible_cmds)
     return None
 
 
@@ -253,6 +285,17 @@ def c18_known(what, sc, words, item):
 
 
 def c18_acceptance_stream(rep, rng, n):
+    """chunked, to keep memory bounded at thorough scale"""
+    done = 0
+    while done < n:
+        k = min(500, n - done)
+        if not c18_acceptance_chunk(rep, rng, k):
+            return False
+        done += k
+    return True
+
+
+def c18_acceptance_chunk(rep, rng, n):
     """implementation only: every offered option name / command name is accepted as such by the parser at that position
     (ParseArgs on prefix + item, fresh parser), when the prefix itself is valid (parses, or only lacks required items)."""
     base, cands = [], []
